@@ -14,7 +14,8 @@ pub fn judge(dir: &Path, sc: &Scenario, obs: &mut Obs) -> Judge {
     let (r, _f, fa) = run_and_judge(dir, sc, obs, &OWNED)?;
     let w = sc.ws as u64;
     // a window boundary within 2 blocks of the wrap (lossless windows end at multiples of W)
-    let near = [65534u64, 65535, 65536, 65537].iter().any(|b| b % w == 0);
+    let near = [65534u64, 65535, 65536, 65537].iter().any(|b| b % w == 0) || w > 32767;
+    obs.class_if(w > 32767, "window-above-32767-blocks");
     obs.class_if(near, "window-boundary-at-wrap");
     obs.class_if(sc.nblocks() > 131071, "two-wraps");
     obs.nontrivial = fa.crossed_wrap && (!r.hits.is_empty() || near);
@@ -119,6 +120,18 @@ fn single_faults_at_wrap(ws_list: &[u16]) -> Vec<Scenario> {
     out
 }
 
+/// windows of more than 32768 blocks that really fill: acknowledgement distances beyond half the number space
+fn huge_window_cases() -> Vec<Scenario> {
+    let mut out = vec![];
+    for role in [Role::Sender, Role::Receiver] {
+        for (ws, blocks) in [(32768u16, 32770usize), (32769, 65540), (40000, 70000), (65535, 70000), (65535, 131074)] {
+            let sc = Scenario::lossless(role, 8, ws, blocks * 8 + 3, 0x1500 + ws as u64);
+            out.push(sc);
+        }
+    }
+    out
+}
+
 pub fn run(ctx: &Ctx) {
     sim::init();
     ctx.set_rule("transfers of 65534..65538 and 131071..131073 blocks (blksize 8) through the real worker in both roles; windowsize from {1,2,3,7,8,16,64,1000}, from divisors of 65534/65535/65536 so that a window ends exactly before/at/after the wrap, and random <=2000; 0-2 drop/dup/swap/late faults placed in the windows that contain blocks 65534..65537. File content encodes the absolute offset, so a block attributed 65536 positions away never matches. Exhaustive part: every single drop/duplicate/late fault on every datagram of either direction in the windows around block 65536 for windowsize {1,2,4,5} (thorough: 10 sizes), 65539-block transfers, both roles. Oracle: S1-S4 (content, final block, window, consecutive bursts) / R1, R2, R5 (ACK never ahead, file on disk at every ACK, final file) with absolute block indices, both sides complete with byte-identical data. A wire part runs tftpc against tftpd for a 65538-block download and upload (byte-identical files). Non-trivial = the transfer crossed the wrap and a fault hit there or a window boundary lies within 2 blocks of 65536; distinct = distinct (scenario, trace shape).");
@@ -127,10 +140,14 @@ pub fn run(ctx: &Ctx) {
     let ws_list: Vec<u16> = ctx.tier.pick(vec![1, 2, 4, 5], vec![1, 2, 3, 4, 5, 7, 8, 15, 16, 17]);
     let cases = single_faults_at_wrap(&ws_list);
     enumerate(ctx, "exh-single-fault-at-wrap", &cases, true, |c, o| dirs.with(|d| judge(d, c, o)));
+    let huge = huge_window_cases();
+    let nh = ctx.tier.pick(6, huge.len());
+    enumerate(ctx, "huge-windows", &huge[..nh], false, |c, o| dirs.with(|d| judge(d, c, o)));
     // the real binaries across the wrap: tftpc against tftpd, 65538 blocks of 8 bytes, one download and one upload (thorough: four)
     let wraps = super::c14::wrap_cases();
-    let n = ctx.tier.pick(2, 4);
-    enumerate(ctx, "wire-beyond-65535-blocks", &wraps[..n], false, |c, o| dirs.with(|d| super::c14::judge(d, c, o)));
+    let n = ctx.tier.pick(2, wraps.len());
+    let wraps: Vec<super::c14::Case> = if ctx.tier == Tier::Quick { vec![wraps[0].clone(), wraps[4].clone()] } else { wraps };
+    enumerate(ctx, "wire-beyond-65535-blocks", &wraps[..n.min(wraps.len())], false, |c, o| dirs.with(|d| super::c14::judge(d, c, o)));
 }
 
 pub fn replay(ctx: &Ctx, part: &str, case: &Value) -> bool {
